@@ -218,7 +218,9 @@ CLAIMED = {
         "synonym tables of the twelve readers are pairwise disjoint, every key emitted by a writer is the primary key of a field of its "
         "reader, every key a reader looks up is a primary key, every accepted field is looked up and every field is written "
         "(computation over tables that harness/translate_schemas.py re-extracts from /repo's source with ast on every run, fail-closed: "
-        "a change of a synonym table, of a reader's look-ups or of a writer's keys re-opens these obligations); every quantity string and every equation string a writer produces reads back to "
+        "a change of a synonym table, of a reader's look-ups or of a writer's keys re-opens these obligations); for every well-formed schema a "
+        "dictionary giving each present field under its primary key is accepted and every field reads back exactly what was written "
+        "(key-level round trip, generic); every quantity string and every equation string a writer produces reads back to "
         "the same value / unit / stoichiometry (C18, C19). PARTIAL AS A THEOREM: that the objects rebuilt by the real readers carry the "
         "original's physical content is not a theorem - no model of all nine object readers/writers was built - it is established by the "
         "correspondence: random networks, spaces (grid; graph with per-node and per-edge units), systems, scripts and Euler trajectories "
